@@ -270,6 +270,9 @@ func (e *FnEnc) block(b *ssa.BasicBlock) {
 	// guard
 	if b.Index == 0 {
 		e.guard[b] = "true"
+		if e.parent != nil {
+			e.guard[b] = e.entryGuard
+		}
 	} else {
 		var gs []string
 		for _, p := range fwd {
@@ -998,6 +1001,9 @@ func (e *FnEnc) ret(r *ssa.Return) {
 		res = append(res, v)
 	}
 	e.retVals = append(e.retVals, res)
+	if e.parent != nil {
+		e.rets = append(e.rets, retInfo{e.curGuard, res, copyState(e.cur)})
+	}
 	if e.con == nil {
 		return
 	}
